@@ -53,6 +53,16 @@ def index (l : List Int) (x : Int) : Res Int :=
   | some i => .ok (i : Int)
   | none => .error .value
 
+/-- `max(l)` on fractions (`ValueError` on an empty list; the first maximal element, as Python) -/
+def maxRat : List Rat → Res Rat
+  | [] => .error .value
+  | x :: xs => .ok (xs.foldl (fun m y => if y > m then y else m) x)
+
+/-- `max(l)` on ints -/
+def maxInt : List Int → Res Int
+  | [] => .error .value
+  | x :: xs => .ok (xs.foldl (fun m y => if y > m then y else m) x)
+
 /-- a note-type string read as a `Kind` (the model has the 17 library types only) -/
 def kindOfStr (s : String) : Res Kind :=
   match Kind.ofStr? s with
